@@ -302,9 +302,12 @@ class VariableCovarianceGaussian(Likelihood):
         A global transformation to Euclidean space does not exist. A local
         approximation invoking the residual is used instead.
         """
-        # TODO: test by drawing synthetic data that actually follows the
-        # noise-cov and then average over it
-        fct = 1 + self.iscomplex
+        # Averaged over data that follows the noise-cov, the pull-back of the
+        # Euclidean metric through this transformation is the metric: the
+        # residual part contributes 1/std_inv^2 per real degree of freedom (one
+        # for real, two for complex data), the remaining 1/std_inv^2 (real) or
+        # 2/std_inv^2 (complex) has to come from `fct*log(std_inv)`.
+        fct = jnp.sqrt(2) ** self.iscomplex
         res = (
             primals[1] * (primals[0] - self.data),
             fct * tree_map(jnp.log, primals[1]),
